@@ -26,7 +26,8 @@ Shapes == {"null", "true", "int", "float", "str", "numstr", "emptyList", "intLis
            "emptyObj", "leafObj", "unknownKeyObj", "listOfLeafObj", "listOfEmptyObj", "listOfNull", "anyElementObj", "derivedObj",
            "strDict", "nestedList3",
            "h0Obj", "h1Obj", "h2Obj", "h3Obj", "listOfHObjs",
-           "clarkStr", "clarkBrokenStr", "boolList", "intBoolList"}  \* objects with exactly the fields of level n of the chain; one of each
+           "clarkStr", "clarkBrokenStr", "boolList", "intBoolList",
+           "derivedTypedObj", "listOfDerived"}   \* the envelope {qname, value, type} with a model value and its type name; a list of envelopes  \* objects with exactly the fields of level n of the chain; one of each
 
 Positions == {"root", "nested", "inList"}
 
@@ -41,11 +42,12 @@ Canonical(k, s) ==
     [] k = "model"        -> s \in {"null", "leafObj", "emptyObj"}
     [] k = "modelList"    -> s \in {"emptyList", "listOfLeafObj", "listOfEmptyObj"}
     [] k = "modelUnion"   -> s \in {"null", "leafObj"}
-    [] k = "anyType"      -> s \in {"null", "int", "str", "true", "float"}
-    [] k = "wildcardList" -> s \in {"emptyList"}
+    \* (a DerivedElement - the value together with the element name and the xsi:type it was announced with - is written as an envelope)
+    [] k = "anyType"      -> s \in {"null", "int", "str", "true", "float", "derivedObj", "derivedTypedObj"}
+    [] k = "wildcardList" -> s \in {"emptyList", "listOfDerived"}
     [] k = "attributes"   -> s \in {"emptyObj", "strDict"}
     [] k = "primUnion"    -> s \in {"null", "int", "str"}
-    [] k = "compound"     -> s \in {"emptyList", "intList", "listOfLeafObj"}
+    [] k = "compound"     -> s \in {"emptyList", "intList", "listOfLeafObj", "listOfDerived"}
     [] k = "enum"         -> s \in {"null", "str"}
     \* no type marker in the dictionary form: the decoder has to find the one class of the hierarchy whose fields fit
     [] k = "hierarchy"     -> s \in {"null", "h0Obj", "h1Obj", "h2Obj", "h3Obj"}
